@@ -568,7 +568,30 @@ func matrixFromMem(it *k4interp) string {
 		}
 	}
 	if best == "" {
-		return "?"
+		// the matrix lives in the frame of a helper split off Relate: the one complete 9-byte local of matrix characters
+		cands := 0
+		for b, n := range seen {
+			if n != 9 || !strings.HasPrefix(b, "L") {
+				continue
+			}
+			arr := byBase[b]
+			ok := true
+			for _, ch := range arr {
+				if ch != 'F' && ch != '0' && ch != '1' && ch != '2' {
+					ok = false
+				}
+			}
+			if ok {
+				// the outermost frame owns the matrix (inner ones hold the scratch copies of transpose and the like)
+				if best == "" || frameNo(b) < frameNo(best) {
+					best = b
+				}
+				cands++
+			}
+		}
+		if cands == 0 {
+			return "?"
+		}
 	}
 	arr := byBase[best]
 	return string(arr[:])
@@ -837,4 +860,11 @@ func patternsByProbing(p *Program, f *ssa.Function, m0 *Model) (pats []string, c
 		}
 	}
 	return asked, "", ""
+}
+
+// frameNo: the frame number of a local's key "L<n>:name".
+func frameNo(key string) int {
+	n := 0
+	fmt.Sscanf(key, "L%d:", &n)
+	return n
 }
